@@ -65,6 +65,12 @@ check("C05", "wire-sim", "fault_enumeration",
       "Overflow checks are on (profile sim); the fault model includes an erased (0xff) block; allocation ceiling 64 x input + 1 MiB.",
       "DESIGN.md section 4 C05, sim-wire/REPORT.md")
 
+check("C15", "net-sim", "fault_enumeration",
+      "crash-point enumeration under deterministic simulation: a recorded fault-free history of the real aggregator is re-run once per chosen persistence step ('stop before write statement j of event i', through the statement-level hook in mithril-persistence), the node is restarted on its SQLite files, a seeded driver continues, then a fault-free quiescence script; safety invariants after every event and bounded liveness after faults stop",
+      "For each baseline history the aggregator's ordered list of write statements (insert certificate, update open_message, insert signed_entity, upsert single_signature, delete buffered_single_signature, transaction begin / commit ...) inside ticks, the background artifact task and signature deliveries is recorded; for every distinct statement label the first and seeded later occurrences become a crash (and, for a third of them, a transient error) point, a quarter of the variants get a second stop right after the restart. After the restart and again after three quiescence phases: every stored certificate verifies with its chain under the client verifier, no entity has two artifacts, every artifact references a stored certificate of exactly that entity, and rounds with a stored quorum get sealed / every entity type is certified in the epochs that follow.",
+      "A crash is a process kill at a statement boundary (a cut inside an explicit SQL transaction rolls it back); the event store and the signer side are not covered; the baseline must itself pass the quiescence script (differential), quorum-less epochs are excused and counted.",
+      "DESIGN.md section 4 C15, section 6 H2")
+
 def manifest():
     checks = []
     for pid in sorted(CHECKS):
